@@ -33,6 +33,7 @@ type node struct {
 	isNode   bool     // a path of the input ends here (a model state to expand)
 	extra    []Action // actions to execute at this node in addition to its children (the model's successful transitions)
 	expand   bool
+	roundtrip bool
 	needed   bool
 	idx      int
 }
@@ -147,8 +148,29 @@ func (e *Explorer) apply(pre *Snapshot, parent int, a Action) (*Snapshot, int, e
 	return first, id, err
 }
 
+// roundTrip records the genesis export/import round trip at a state as one step (action GenesisRoundTrip).
+func (e *Explorer) roundTrip(st *Snapshot, line int) error {
+	ctx := e.W.Ctx(st)
+	a := Action{Act: "GenesisRoundTrip"}
+	w2, ctx2, err := e.W.Reimport(ctx)
+	if err != nil {
+		_, werr := e.emit(line, a, TxResult{OK: false, Err: err.Error(), Signers: []string{}}, ctx, nil, st, &Snapshot{Height: st.Height, Stores: st.Stores})
+		return werr
+	}
+	saved := e.W
+	e.W = w2
+	_, werr := e.emit(line, a, TxResult{OK: true, Signers: []string{}}, ctx2, nil, st, &Snapshot{Height: st.Height, Stores: st.Stores})
+	e.W = saved
+	return werr
+}
+
 func (e *Explorer) dfs(n *node, st *Snapshot, line int) error {
 	done := map[string]bool{}
+	if n.roundtrip {
+		if err := e.roundTrip(st, line); err != nil {
+			return err
+		}
+	}
 	if n.expand {
 		for _, a := range e.Alphabet {
 			if a.Act == "NextBlock" && e.MaxHeight > 0 && st.Height+a.Gap > e.MaxHeight {
@@ -214,6 +236,7 @@ type Options struct {
 	PathFile  string
 	NPaths    int
 	SecondApp bool
+	RoundTrips int // number of states at which the genesis export/import round trip is recorded
 }
 
 func Explore(w *World, out *vcommon.Writer, o Options) (*Explorer, error) {
@@ -311,6 +334,14 @@ func Explore(w *World, out *vcommon.Writer, o Options) (*Explorer, error) {
 		}
 		ends[i].expand = len(o.Alphabet) > 0
 		mark(ends[i])
+	}
+	if o.RoundTrips > 0 && len(ends) > 0 {
+		r := rand.New(rand.NewSource(o.Seed + 17))
+		for k := 0; k < o.RoundTrips; k++ {
+			n := ends[r.Intn(len(ends))]
+			n.roundtrip = true
+			mark(n)
+		}
 	}
 	if o.AllPaths {
 		for j, n := range ends {
